@@ -127,7 +127,14 @@ int main(int argc, char** argv) {
     // the first compile leaves the spec changed, which is a recorded finding (its own class, so anything else still ends the run)
     bool spec_tainted = false;
     auto same = [&](const mjModel* m, const char* how, const char* reuse = nullptr) {
-      if (!m) sd::violation("compile-failed", "%s failed although the reference compile succeeded", how);
+      if (!m) {
+        if (fuse && reuse) {   // the recorded fusestatic finding can also leave a spec that no longer compiles at all
+          char cls[96]; snprintf(cls, sizeof cls, "model-differs-after-fusestatic:%s", reuse);
+          if (sd::is_tolerated(cls)) { char pb[128]; snprintf(pb, sizeof pb, "tolerated_%s", cls); sd::probe(pb); spec_tainted = true; return; }
+          sd::violation(cls, "%s failed although the reference compile succeeded; the spec has fusestatic enabled", how);
+        }
+        sd::violation("compile-failed", "%s failed although the reference compile succeeded", how);
+      }
       std::vector<char> b = model_bytes(m);
       if (b.size() != ref.size() || memcmp(b.data(), ref.data(), ref.size())) {
         if (fuse && reuse) {
@@ -168,7 +175,19 @@ int main(int argc, char** argv) {
       std::vector<mjtNum> qpos(d->qpos, d->qpos + m1->nq), qvel(d->qvel, d->qvel + m1->nv), act(d->act, d->act + m1->na), ctrl(d->ctrl, d->ctrl + m1->nu);
       mjtNum t = d->time;
       if (cold & 8) clear_cache();
-      int rc = mj_recompile(s1, &vfs, m1, d);
+      int rc = 0;
+      bool rraised = false;
+      if (fuse) rraised = ND_GUARD({ rc = mj_recompile(s1, &vfs, m1, d); });   // (the fused spec's second compile may build a model on which the engine's own checks fire)
+      else rc = mj_recompile(s1, &vfs, m1, d);
+      if (fuse && (rraised || rc != 0)) {
+        const char* cls = "model-differs-after-fusestatic:recompile";
+        if (!sd::is_tolerated(cls)) sd::violation(cls, "mj_recompile of the once-compiled fusestatic spec %s: %s", rraised ? "raised mju_error" : "failed", rraised ? nd::g_lasterr : mjs_getError(s1));
+        sd::probe("tolerated_model-differs-after-fusestatic:recompile");
+        // the model / data handed to mj_recompile are gone or unusable: end the case here
+        mj_deleteSpec(s1); mj_deleteModel(mref); mj_deleteSpec(s0);
+        sd::run_end(); mj_deleteVFS(&vfs);
+        continue;
+      }
       if (rc != 0) sd::violation("recompile-failed", "mj_recompile of an unchanged spec returned %d: %s", rc, mjs_getError(s1));
       same(m1, "mj_recompile (model)", "recompile");
       if (memcmp(&t, &d->time, sizeof t)) sd::violation("recompile-state", "mj_recompile changed time %.17g -> %.17g", t, d->time);
